@@ -1249,7 +1249,21 @@ def gen_pv_cases(rng, n):
             add(rate, per, pmt, fv)
         else:
             add(rate, per, pmt, fv, ty)
-    return out
+    # the same calls WRITTEN with each of the three argument separators, an omitted future value / type being an empty slot
+    # of the call's text (a blank argument), not a variable holding None
+    written = []
+    for i, c in enumerate(out):
+        a = list(c['args'])
+        if not (3 <= len(a) <= 5) or (i >= 32 and rng.random() < 0.5):
+            continue
+        if len(a) == 5 and a[3] is not None and not isinstance(a[3], bool) and a[3] == 0 and rng.random() < 0.6:
+            a[3] = None
+        while len(a) > 3 and a[-1] is None:
+            a.pop()
+        sep = rng.choice([',', ';', '\\', '\\'])
+        slots = [VARS[j] if x is not None or j < 3 else '' for j, x in enumerate(a)]
+        written.append({'kind': 'pv', 'name': 'PV', 'args': a, 'formula': 'PV(' + sep.join(slots) + ')'})
+    return out + written
 
 
 def gen_rand_cases(rng, n, draws):
